@@ -755,6 +755,9 @@ def build_fn(unit, item, imp, fnitem, spec: Fn, cover=False):
         if n21:
             applied.append(("R21", "a + b / a - b / a * b / a op= b", f"core::ops::<Trait>::<method>(a, b) x{n21}"))
     body = _rewrite_continue(body, applied)
+    assist_ = spec.name in getattr(unit, "assist", ())
+    if assist_ and not getattr(unit, "tail_assert", False):
+        body = _rewrite_early_return(body, applied)
     if re.search(r'\.\s*map\s*\(', body) and re.search(r'\.\s*collect\s*::', body):
         body = _rewrite_map_collect(body, applied)
     if re.search(r'\)\s*\.rev\(\)\s*\{', body):
@@ -802,6 +805,9 @@ def build_fn(unit, item, imp, fnitem, spec: Fn, cover=False):
     pre = ""
     if spec.preamble:
         pre += "\n        " + spec.preamble.strip()
+    if assist_ and any(pf == "common.rs" for (pf, _pp) in unit.preludes):
+        pre += "\n        broadcast use comm_ops;"
+        applied.append(("assist", "second attempt", "R24 + comm_ops + 8x resource limit"))
     if cover and spec.cover:
         pre += "\n        proof { assert(false); } // COVER"
     # insert the preamble right after '{' (after R1's let if present)
@@ -861,7 +867,9 @@ def build_fn(unit, item, imp, fnitem, spec: Fn, cover=False):
         sig = re.sub(r'\bfn\s+' + re.escape(spec.name) + r'\b', 'fn ' + fn_out, sig, count=1)
         applied.append(("R13b", f"fn {spec.name}", f"fn {fn_out} (second obligation on the same function text)"))
     extra = spec.attrs
-    if spec.rlimit:
+    if assist_:
+        extra += f"\n#[verifier::rlimit({8 * (spec.rlimit or unit.rlimit or 10)})]"
+    elif spec.rlimit:
         extra += f"\n#[verifier::rlimit({spec.rlimit})]"
     if spec.nonlinear:
         extra += "\n#[verifier::nonlinear]"
